@@ -141,6 +141,9 @@ def _more_known(d):
         return mv == "U" and av in ("0", "1")
     if k == "ok" or k.endswith(".ok") or k == "complete" or k.endswith(".complete"):
         return mv == "0" and av == "1"
+    if k.endswith(".count"):
+        # an array the strict model cannot locate (count 0) whose extent the compiler folded to a constant
+        return mv == "0" and av not in (None, "0")
     return mv is None and av is not None
 
 
